@@ -395,6 +395,9 @@ func baseSamples(k string) []interface{} {
 		// in a form other than the one they would be written back in
 		return []interface{}{"plain text", "", "two words & <b>markup</b>", "unicode é世界", "no-scheme/path",
 			"Re: hello", "CW: spoilers #tag y", "Note: 100% sure?", "LKO2:N%2Tw=w]~RB", "a:b", "HTTPS://Example.com/Path", "x-y.z+1:rest of the line",
+			// the same with a lower-case word before the colon, which net/url
+			// writes back as it is
+			"re: hello", "food: pizza and beer", "covid-19: an update", "q:\"what?\"", "update: <b>back</b> online", "cw:death", "c++: the good parts", "mh: a|b",
 			// text in the neighbourhood of other kinds' lexical spaces
 			"Paris", "P", "-P", "PT", "P1Y2", "PT5", "P1S", "P1D and more", "PY", "P1DT", "2020-13-45", "truely", "12abc",
 			// near an instant, outside its lexical space: a one-digit hour, a
